@@ -206,7 +206,12 @@ class Run:
                     self.count("regrant_same_name")
                     self.nontrivial = True
                 if reuse and prev is not None and prev["type"] == CapType.NORMAL:
-                    grant[n] = prev["url"]
+                    # the simulator grants a URL it has granted before: the latest one again, or an older one (u1, u2, u1)
+                    olds = [e["url"] for e in m.entries[key] if e["name"] == n and e["type"] == CapType.NORMAL]
+                    distinct = list(dict.fromkeys(olds))
+                    grant[n] = distinct[1] if len(distinct) >= 2 and len(names) % 2 else distinct[0]
+                    if grant[n] != prev["url"]:
+                        self.count("regrant_older_url")
                 else:
                     grant[n] = self.fresh_url(s, r)
             if junk:
@@ -251,6 +256,11 @@ class Run:
                         continue
                     m.add(key, n + "ProxyWrapper", CapType.WRAPPER, wurl)
                     expected[n] = wurl
+                    # the wrapper stands for the URL granted *now*: same path and query, only scheme and host are the proxy's
+                    import urllib.parse as _up
+                    pw, pg = _up.urlsplit(wurl), _up.urlsplit(grant[n])
+                    if (pw.path, pw.query) != (pg.path, pg.query) or pw.scheme != "http" or not pw.netloc.endswith(".hippo-proxy.localhost"):
+                        out.append(("seed-response:stale-wrapper", "wrapper %s presented for %s granted as %s" % (wurl, n, grant[n])))
             for n in want_proxy:
                 expected[n] = m.by_name(key, n)["url"]
             if resp is not None:
